@@ -56,7 +56,7 @@ def check_results(ctx: Ctx, results):
 def files(ctx: Ctx):
     n = ctx.n(100, 1200)
     focus = {'p_bg': 0.0, 'p_custom': 0.7, 'p_pam': 0.9, 'allow_junction_pam': False, 'n_pam': [1, 2, 3, 4],
-             'custom_kinds': ['snv', 'mnv', 'ins', 'ins', 'del', 'del', 'delins_u', 'delins_a'], 'p_gtf': 0.95}
+             'custom_kinds': ['snv', 'mnv', 'ins', 'ins', 'del', 'del', 'delins_u', 'delins_a'], 'p_gtf': 0.85}
     designs = [gen.gen_sge(ctx.rng, focus) for _ in range(n)]
     for i, d in enumerate(designs):
         if i % 6 == 0:     # length limits so that some rows are excluded (they must have no record)
@@ -67,7 +67,8 @@ def files(ctx: Ctx):
     # a second, unannotated contig with a different sequence and a targeton at the coordinates of the first contig's: nothing of the first
     # contig (custom variants, PAM edits) may reach its records
     for d in designs[:n]:
-        if ctx.rng.random() < 0.15 and d['mode'] == 'sge':
+        # (with --gff every contig and strand that has targetons must have a transcript: the tool asserts it - only designs without annotation)
+        if ctx.rng.random() < 0.4 and d['mode'] == 'sge' and not d.get('gtf'):
             t0 = d['targetons'][0]
             d['extra_contigs'] = {'chr2': gen.rand_dna(ctx.rng, len(d['ref']))}
             d['targetons'].append(dict(t0, contig='chr2', action=['', ctx.rng.choice(['snv', '1del', 'snv, 1del', '2del0']), ''], sgrna=[]))
